@@ -90,9 +90,9 @@ class ParallelStep(GeneticStep):
         indices = [0] + self.cumsum(
             [int(round(w * len(population) / total, 0)) for w in self.weights],
         )
+        indices = [min(i, target_size) for i in indices]
         ranges = list(zip(indices, indices[1:]))
-        if ranges[-1][0] < target_size:
-            ranges[-1] = (ranges[-1][0], target_size)
+        ranges[-1] = (ranges[-1][0], target_size)
         return ranges
 
     def iterate(
@@ -116,7 +116,7 @@ class ParallelStep(GeneticStep):
                     evaluator,
                     representation,
                     random,
-                    population,
+                    npopulation,
                     end - start,
                     generation,
                 )
@@ -158,6 +158,7 @@ class ExclusiveParallelStep(ParallelStep):
         indices = [0] + self.cumsum(
             [int(round(w * len(npopulation) / total, 0)) for w in self.weights],
         )
+        indices = [min(i, target_size) for i in indices]
         ranges = list(zip(indices, indices[1:]))
         assert len(ranges) == len(self.steps)
         ranges[-1] = (ranges[-1][0], target_size)  # Fix the last position
